@@ -357,7 +357,7 @@ Proof.
     constructor; simpl; try assumption.
     + apply winv_set_crd. exact WI.
     + rewrite Ew, Es. destruct v; reflexivity.
-  - destruct (match v with Some co => co_ndim co =? ndim s | None => true end); [|exact I]. simpl.
+  - destruct (coords_ok v s); [|exact I]. simpl.
     pose proof I as [WI sh pl wl q].
     destruct (update_world_spec (length (shape s)) (set_crd s v) (winv_set_crd s v WI)) as [uw ul up um ush ucr uh udl uq un uk].
     simpl in *. constructor.
@@ -372,7 +372,7 @@ Qed.
 Lemma update_comps_loop_inv : forall l s, data_inv s -> data_inv (fst (update_comps_loop l s)).
 Proof.
   induction l as [|[c sh] l IH]; intros s I; simpl; [exact I|].
-  destruct (assoc c (comps s)) as [k|] eqn:Ea; [|exact I].
+  destruct (assoc c (comps s)) as [k|] eqn:Ea; [|destruct (memz c (ext s)); exact I].
   destruct (negb (eqlz sh (shape s))) eqn:Es; [exact I|].
   destruct (negb (is_main k)) eqn:Ek; [exact I|].
   apply IH. apply negb_false_iff in Es. apply eqlz_eq in Es. apply negb_false_iff in Ek.
